@@ -7,7 +7,7 @@ REGISTRY = []
 
 class Contract:
     def __init__(self, id, props, anchor, harness, loops=None, summaries=None, cases=None, note='',
-                 known=None, native=True, samples=200):
+                 known=None, native=True, samples=200, small=None):
         self.id = id
         self.props = list(props)
         self.anchor = anchor
@@ -19,11 +19,13 @@ class Contract:
         self.known = known or {}      # label -> finding id  (sub-cases listed in known_findings.json)
         self.native = native          # run the CPython cross-check
         self.samples = samples
+        self.small = small or []      # size assignments for the quantifier-free re-instantiation (DESIGN 2.6)
 
 
-def contract(id, props, anchor, loops=None, summaries=None, cases=None, note='', known=None, native=True, samples=200):
+def contract(id, props, anchor, loops=None, summaries=None, cases=None, note='', known=None, native=True, samples=200,
+             small=None):
     def deco(fn):
-        REGISTRY.append(Contract(id, props, anchor, fn, loops, summaries, cases, note, known, native, samples))
+        REGISTRY.append(Contract(id, props, anchor, fn, loops, summaries, cases, note, known, native, samples, small))
         return fn
     return deco
 
